@@ -211,7 +211,7 @@ theorem writeStepState_effect (s s' : KState) (k : Key) (st : StepState) (d : Op
 /-! ## Folds in the `Except` monad -/
 
 /-- An invariant of every step of a monadic fold is an invariant of the fold. -/
-theorem foldlM_inv {α β : Type} (P : β → Prop) (f : β → α → M β) (l : List α)
+theorem foldlM_keeps {α β : Type} (P : β → Prop) (f : β → α → M β) (l : List α)
     (hstep : ∀ b a b', a ∈ l → P b → f b a = .ok b' → P b') (b b' : β) (hb : P b)
     (h : l.foldlM f b = .ok b') : P b' := by
   induction l generalizing b with
@@ -289,7 +289,7 @@ theorem outdateStep_inv {Q : KState → Prop} (hQ : PropInv Q) (rec : KState →
         simp only [hw] at h
         have hk := find?_key s f fn hf
         have h1 : Q s1 := hQ.file s s1 f hs (by simp [KState.fstateOf, hf, hb.2]) (hk ▸ hb.1) hw
-        exact foldlM_inv Q rec _ (fun b a b' _ hb' hr => hrec b a b' hb' hr) s1 s' h1 h
+        exact foldlM_keeps Q rec _ (fun b a b' _ hb' hr => hrec b a b' hb' hr) s1 s' h1 h
     · simp only [pure, Except.pure, Except.ok.injEq] at h
       exact h ▸ hs
 
@@ -315,7 +315,7 @@ theorem markStepPending_inv {Q : KState → Prop} (hQ : PropInv Q) :
           have h1 : Q s1 := hQ.step s s1 k n.sstate hs (by simp [KState.sstateOf, hf])
             (fun hr => hrc (Or.inl hr)) (fun hc => hrc (Or.inr hc)) hw
           split at h
-          · exact foldlM_inv Q _ _ (fun b a b' _ hb hr =>
+          · exact foldlM_keeps Q _ _ (fun b a b' _ hb hr =>
               outdateStep_inv hQ _ (fun s t s' => ih s s' t) b b' a hb hr) s1 s' h1 h
           · simp only [Except.ok.injEq] at h; exact h ▸ h1
 
@@ -454,7 +454,7 @@ theorem markStepPending_notDone (fuel : Nat) (s s' : KState) (k : Key)
             simp [KState.sstateOf, hf]
           have hfin : s'.sstateOf k = some .pending := by
             split at h
-            · exact foldlM_inv (fun s => s.sstateOf k = some .pending) _ _ (fun b a b' _ hb hr =>
+            · exact foldlM_keeps (fun s => s.sstateOf k = some .pending) _ _ (fun b a b' _ hb hr =>
                 outdateStep_inv (propInv_pending k) _
                   (fun s t s' => markStepPending_inv (propInv_pending k) fuel s s' t) b b' a hb hr) s1 s' hp h
             · simp only [Except.ok.injEq] at h; exact h ▸ hp
@@ -478,7 +478,7 @@ theorem foldlM_each {α β : Type} (R : α → β → Prop) (f : β → α → M
       simp only [hfx] at h
       intro a ha
       rcases List.mem_cons.mp ha with rfl | hmem
-      · exact foldlM_inv (R a) f xs (fun b0 a0 b0' _ hb0 hr => hstab b0 a a0 b0' hb0 hr) b1 b' (hest b a b1 hfx) h
+      · exact foldlM_keeps (R a) f xs (fun b0 a0 b0' _ hb0 hr => hstab b0 a a0 b0' hb0 hr) b1 b' (hest b a b1 hfx) h
       · exact ih b1 h a hmem
 
 /-- `outdateStep` on a file key leaves that file not BUILT. -/
@@ -503,7 +503,7 @@ theorem outdateStep_notBuilt (fuel : Nat) (s s' : KState) (f : Key) (hk : f.kind
           rw [setFileState_eq] at hw
           rw [(writeFile_effect s s1 f _ _ hw).1 f]
           simp [KState.fstateOf, hf]
-        exact foldlM_inv (fun s => s.fstateOf f ≠ some .built) _ _ (fun b a b' _ hb hr =>
+        exact foldlM_keeps (fun s => s.fstateOf f ≠ some .built) _ _ (fun b a b' _ hb hr =>
           markStepPending_inv (propInv_notBuilt f) fuel b b' a hb hr) s1 s' h1 h
     · rename_i hnb
       simp only [pure, Except.pure, Except.ok.injEq] at h
@@ -574,7 +574,7 @@ theorem markConsumersPending_notDone (s s' : KState) (f : Key) (h : s.markConsum
 theorem markConsumersPending_inv {Q : KState → Prop} (hQ : PropInv Q) (s s' : KState) (f : Key) (hs : Q s)
     (h : s.markConsumersPending f = .ok s') : Q s' := by
   unfold KState.markConsumersPending at h
-  exact foldlM_inv Q _ _ (fun b a b' _ hb hr => markStepPending_inv hQ b.fuel b b' a hb hr) s s' hs h
+  exact foldlM_keeps Q _ _ (fun b a b' _ hb hr => markStepPending_inv hQ b.fuel b b' a hb hr) s s' hs h
 
 /-! ### Staleness -/
 
@@ -615,7 +615,7 @@ theorem markStepPending_stale_mono :
     have hfold : ∀ (l : List Key) (s s' : KState), l.foldlM (markStepPending fuel) s = .ok s' →
         ∀ d, StaleDep s' d → StaleDep s d := by
       intro l s s' h
-      exact foldlM_inv (fun b => ∀ d, StaleDep b d → StaleDep s d) _ l
+      exact foldlM_keeps (fun b => ∀ d, StaleDep b d → StaleDep s d) _ l
         (fun b a b' _ hb hr d hd => hb d (ih b b' a hr d hd)) s s' (fun _ hd => hd) h
     have hout : ∀ (s s' : KState) (f : Key), outdateStep (markStepPending fuel) s f = .ok s' →
         ∀ d, StaleDep s' d → StaleDep s d := by
@@ -637,7 +637,7 @@ theorem markStepPending_stale_mono :
             obtain ⟨hfs, hss, hdeps⟩ := writeFile_effect s s1 f _ _ hw
             have hd1 : StaleDep s1 d := hfold _ s1 s' h d hd
             have hdeps' : s'.deps = s1.deps :=
-              foldlM_inv (fun b => b.deps = s1.deps) _ _
+              foldlM_keeps (fun b => b.deps = s1.deps) _ _
                 (fun b a b' _ hb hr => (markStepPending_deps fuel b b' a hr).trans hb) s1 s' rfl h
             by_cases hsrc : d.src = f
             · -- the consumer was marked, so it is not SUCCEEDED any more
@@ -675,7 +675,7 @@ theorem markStepPending_stale_mono :
           obtain ⟨hss, hfs, hdeps⟩ := writeStepState_effect s s1 k _ _ hw
           have hd1 : StaleDep s1 d := by
             split at h
-            · exact foldlM_inv (fun b => ∀ d, StaleDep b d → StaleDep s1 d) _ _
+            · exact foldlM_keeps (fun b => ∀ d, StaleDep b d → StaleDep s1 d) _ _
                 (fun b a b' _ hb hr d hd => hb d (hout b b' a hr d hd)) s1 s' (fun _ hd => hd) h d hd
             · simp only [Except.ok.injEq] at h; exact h ▸ hd
           obtain ⟨hmem, hkind, hsucc, hav⟩ := hd1
@@ -706,9 +706,9 @@ theorem propInv_notState (q : Key) (x : FileState) (hx : x ≠ .outdated) :
     rw [(writeStepState_effect s s' t _ _ h).2.1 q]; exact hs
 
 /-- No step is RUNNING or CHECKING (startup after `reset_interrupted_steps`, watch phase). -/
-def Quiet (s : KState) : Prop := ∀ q st, s.sstateOf q = some st → st ≠ .running ∧ st ≠ .checking
+def NoneBusy (s : KState) : Prop := ∀ q st, s.sstateOf q = some st → st ≠ .running ∧ st ≠ .checking
 
-theorem propInv_quiet : PropInv Quiet where
+theorem propInv_noneBusy : PropInv NoneBusy where
   file := fun s s' f hs _ _ h => by
     rw [setFileState_eq] at h
     intro q st hst
@@ -739,7 +739,7 @@ theorem markStepPending_orphan_mono :
     have hfold : ∀ (l : List Key) (s s' : KState), l.foldlM (markStepPending fuel) s = .ok s' →
         ∀ d, OrphanBuilt s' d → OrphanBuilt s d := by
       intro l s s' h
-      exact foldlM_inv (fun b => ∀ d, OrphanBuilt b d → OrphanBuilt s d) _ l
+      exact foldlM_keeps (fun b => ∀ d, OrphanBuilt b d → OrphanBuilt s d) _ l
         (fun b a b' _ hb hr d hd => hb d (ih b b' a hr d hd)) s s' (fun _ hd => hd) h
     have hout : ∀ (s s' : KState) (f : Key), outdateStep (markStepPending fuel) s f = .ok s' →
         ∀ d, OrphanBuilt s' d → OrphanBuilt s d := by
@@ -791,7 +791,7 @@ theorem markStepPending_orphan_mono :
           by_cases hdone : n.sstate = .succeeded ∨ n.sstate = .failed
           · simp only [hdone, if_true] at h
             have hd1 : OrphanBuilt s1 d :=
-              foldlM_inv (fun b => ∀ d, OrphanBuilt b d → OrphanBuilt s1 d) _ _
+              foldlM_keeps (fun b => ∀ d, OrphanBuilt b d → OrphanBuilt s1 d) _ _
                 (fun b a b' _ hb hr d hd => hb d (hout b b' a hr d hd)) s1 s' (fun _ hd => hd) h d hd
             by_cases hsrc : d.src = k
             · -- all file sinks of `k` were outdated
@@ -824,13 +824,129 @@ theorem markStepPending_orphan_mono :
 theorem markConsumersPending_stale_mono (s s' : KState) (f : Key) (h : s.markConsumersPending f = .ok s') :
     ∀ d, StaleDep s' d → StaleDep s d := by
   unfold KState.markConsumersPending at h
-  exact foldlM_inv (fun b => ∀ d, StaleDep b d → StaleDep s d) _ _
+  exact foldlM_keeps (fun b => ∀ d, StaleDep b d → StaleDep s d) _ _
     (fun b a b' _ hb hr d hd => hb d (markStepPending_stale_mono b.fuel b b' a hr d hd)) s s' (fun _ hd => hd) h
 
 theorem markConsumersPending_orphan_mono (s s' : KState) (f : Key) (h : s.markConsumersPending f = .ok s') :
     ∀ d, OrphanBuilt s' d → OrphanBuilt s d := by
   unfold KState.markConsumersPending at h
-  exact foldlM_inv (fun b => ∀ d, OrphanBuilt b d → OrphanBuilt s d) _ _
+  exact foldlM_keeps (fun b => ∀ d, OrphanBuilt b d → OrphanBuilt s d) _ _
     (fun b a b' _ hb hr d hd => hb d (markStepPending_orphan_mono b.fuel b b' a hr d hd)) s s' (fun _ hd => hd) h
+
+/-! ## Downstream closure of the invalidation -/
+
+theorem PropInv.forall {ι : Type} {P : ι → KState → Prop} (h : ∀ i, PropInv (P i)) :
+    PropInv (fun s => ∀ i, P i s) where
+  file := fun s s' f hs hb hk hw i => (h i).file s s' f (hs i) hb hk hw
+  step := fun s s' t st hs h0 hr hc hw i => (h i).step s s' t st (hs i) h0 hr hc hw
+
+theorem markConsumersPending_deps (s s' : KState) (f : Key) (h : s.markConsumersPending f = .ok s') :
+    s'.deps = s.deps :=
+  markConsumersPending_inv (propInv_deps s.deps) s s' f rfl h
+
+/-- The stored step hash is not touched by the propagation (a step marked pending keeps its hash
+and is re-checked before it runs). -/
+theorem propInv_shash (q : Key) (v : Option Nat) : PropInv (fun s => s.shashOf q = v) where
+  file := fun s s' f hs _ _ h => by
+    rw [setFileState_eq] at h
+    unfold KState.writeFile at h
+    cases hf : s.find? f with
+    | none => simp only [hf, pure, Except.pure, Except.ok.injEq] at h; exact h ▸ hs
+    | some n =>
+      simp only [hf, bind, Except.bind] at h
+      cases hw : fileRowWrite n .outdated none with
+      | error e => simp [hw] at h
+      | ok n' =>
+        simp only [hw, pure, Except.pure, Except.ok.injEq] at h
+        obtain ⟨_, h2, _, h4⟩ := fileRowWrite_ok n n' _ _ hw
+        have hk : n.key = f := find?_key s f n hf
+        have hkey : ∀ m : Node, m.key = f → ((fun _ => n') m).key = f := fun _ _ => by simp [h2, hk]
+        have hmod : (s.modify f fun _ => n').shashOf q = s.shashOf q := by
+          by_cases hq : q = f
+          · subst hq
+            simp only [KState.shashOf, find?_modify_self s q _ hkey, hf, Option.map_some, Option.bind_some, h4]
+          · simp only [KState.shashOf, find?_modify_ne s f q _ hkey hq]
+        have hflag : ∀ s0 : KState, (s0.flagReadySinks f).shashOf q = s0.shashOf q := by
+          intro s0
+          obtain ⟨g, hg, hfq⟩ := find?_flagReadySinks s0 f q
+          unfold KState.shashOf
+          rw [hfq]
+          cases s0.find? q with
+          | none => rfl
+          | some m => rcases hg m with h1 | h1 <;> simp [h1]
+        split at h
+        · subst h; rw [hflag, hmod]; exact hs
+        · subst h; rw [hmod]; exact hs
+  step := fun s s' t _ hs _ _ _ h => by
+    rw [setStepState_eq] at h
+    unfold KState.writeStepState at h
+    cases hf : s.find? t with
+    | none => simp only [hf, pure, Except.pure, Except.ok.injEq] at h; exact h ▸ hs
+    | some n =>
+      simp only [hf, bind, Except.bind] at h
+      cases hw : stepRowWrite n .pending (some false) with
+      | error e => simp [hw] at h
+      | ok n' =>
+        simp only [hw, pure, Except.pure, Except.ok.injEq] at h
+        subst h
+        obtain ⟨_, h2, _, h4⟩ := stepRowWrite_ok n n' _ _ hw
+        have hk : n.key = t := find?_key s t n hf
+        have hkey : ∀ m : Node, m.key = t → ((fun _ => n') m).key = t := fun _ _ => by simp [h2, hk]
+        by_cases hq : q = t
+        · subst hq
+          simp only [KState.shashOf, find?_modify_self s q _ hkey, hf, Option.map_some, Option.bind_some, h4]
+          simpa [KState.shashOf, hf] using hs
+        · simp only [KState.shashOf, find?_modify_ne s t q _ hkey hq]
+          exact hs
+
+/-! ## Requests that only touch cache flags (C04) -/
+
+/-- A node without its `_check_after` flag. -/
+def noAfter (n : Node) : Node := { n with checkAfter := false }
+
+/-- A node without `_ready` / `_check_ready`. -/
+def noReady (n : Node) : Node := { n with ready := false, checkReady := false }
+
+theorem map_view_modifyWhere {β : Type} (s : KState) (p : Node → Bool) (f : Node → Node) (v : Node → β)
+    (hv : ∀ n, v (f n) = v n) : (s.modifyWhere p f).nodes.map v = s.nodes.map v := by
+  unfold KState.modifyWhere
+  simp only [List.map_map]
+  apply List.map_congr_left
+  intro n _
+  by_cases h : p n = true <;> simp [h, hv]
+
+theorem map_view_modify {β : Type} (s : KState) (k : Key) (f : Node → Node) (v : Node → β)
+    (hv : ∀ n, v (f n) = v n) : (s.modify k f).nodes.map v = s.nodes.map v := by
+  unfold KState.modify
+  simp only [List.map_map]
+  apply List.map_congr_left
+  intro n _
+  by_cases h : n.key = k <;> simp [h, hv]
+
+/-- What `reconcile_targets` may not change: every column of every node except `_check_after`,
+the dependency table, the deletion queue. -/
+def SameButAfter (s s' : KState) : Prop :=
+  s'.nodes.map noAfter = s.nodes.map noAfter ∧ s'.deps = s.deps ∧ s'.toBeDeleted = s.toBeDeleted
+
+theorem SameButAfter.refl (s : KState) : SameButAfter s s := ⟨rfl, rfl, rfl⟩
+
+theorem SameButAfter.trans {a b c : KState} (h1 : SameButAfter a b) (h2 : SameButAfter b c) : SameButAfter a c :=
+  ⟨h2.1.trans h1.1, h2.2.1.trans h1.2.1, h2.2.2.trans h1.2.2⟩
+
+theorem reconcileTarget_sameButAfter (s s' : KState) (t : String) (h : s.reconcileTarget t = .ok s') :
+    SameButAfter s s' := by
+  unfold KState.reconcileTarget at h
+  split at h
+  · split at h
+    · cases h; exact SameButAfter.refl s
+    · split at h
+      · split at h
+        · cases h
+        · cases h; exact SameButAfter.refl s
+      · split at h
+        · cases h
+          exact ⟨map_view_modify s _ _ noAfter (fun _ => rfl), rfl, rfl⟩
+        · cases h; exact SameButAfter.refl s
+  · cases h; exact SameButAfter.refl s
 
 end StepupModel.K
